@@ -113,9 +113,15 @@ Record ram := mkRam {
   r_nets : nets;
   r_labels : N;                   (* UserLabel list of the application endpoint; 0 = empty *)
   r_binds : list (N * N);         (* binding list token of the application endpoint, per fabric *)
-  r_resump : list (N * N)         (* resumption records (fabric, peer), oldest first *)
+  r_resump : list (N * N);        (* resumption records (fabric, peer), oldest first *)
+  r_tz : N;                       (* time zone list token; 0 = the default list *)
+  r_tts : option (N * N);         (* trusted time source: (fabric, node) *)
+  r_icd : list (N * N);           (* ICD registration of the administrator's client, per fabric *)
+  r_ota : list (N * N);           (* default OTA provider, per fabric *)
+  r_scenes : list (N * N);        (* the scene of the application endpoint, per fabric *)
+  r_subs : list (N * N)           (* the subscription table, in table order: (fabric, tag) *)
 }.
-Definition ram_factory := mkRam [] basic_default nets_reset 0 [] [].
+Definition ram_factory := mkRam [] basic_default nets_reset 0 [] [] 0 None [] [] [] [].
 
 (** fail-safe: context fabric (0 = PASE before AddNOC) and whether AddNOC / UpdateNOC was accepted;
     [stage]: 0 nothing yet, 1 CSR and root consumed (AddNOC refused), 2 NOC accepted *)
@@ -133,6 +139,12 @@ Inductive op :=
 | ONodeLabel (c : caller) (v : N)
 | OLocation (c : caller) (v : N)
 | OReg (c : caller) (v : N)        (* SetRegulatoryConfig(type v mod 3, country v) *)
+| OTz (c : caller) (v : N)         (* SetTimeZone(list v) *)
+| OTts (c : caller) (v : N)        (* SetTrustedTimeSource(node v); 0 = null *)
+| OIcd (c : caller) (v : N)        (* RegisterClient(monitored subject v); 0 = UnregisterClient *)
+| OOta (c : caller) (v : N)        (* DefaultOTAProviders := [provider v]; 0 = [] *)
+| OScene (c : caller) (v : N)      (* AddScene(transition time v); 0 = RemoveScene *)
+| OSub (c : caller) (v : N)        (* SubscribeRequest (KeepSubscriptions = false) tagged v *)
 | ORemove (c : caller) (g : N)     (* RemoveFabric(g) *)
 | OArm (c : caller)                (* ArmFailSafe(60) *)
 | OAddNoc (nid : N)                (* over PASE: CSRRequest, AddTrustedRootCertificate, AddNOC *)
@@ -163,6 +175,18 @@ Section Codecs.
   Variable dec_binds : blob -> option (list (N * N)).
   Variable enc_res : list (N * N) -> blob.
   Variable dec_res : blob -> option (list (N * N)).
+  Variable enc_tz : N -> blob.
+  Variable dec_tz : blob -> option N.
+  Variable enc_tts : N * N -> blob.
+  Variable dec_tts : blob -> option (N * N).
+  Variable enc_icd : list (N * N) -> blob.
+  Variable dec_icd : blob -> option (list (N * N)).
+  Variable enc_ota : list (N * N) -> blob.
+  Variable dec_ota : blob -> option (list (N * N)).
+  Variable enc_scenes : list (N * N) -> blob.
+  Variable dec_scenes : blob -> option (list (N * N)).
+  Variable enc_sub : N * N -> blob.
+  Variable dec_sub : blob -> option (N * N).
 
   Inductive kvop := KStore (k : N) (b : blob) | KRemove (k : N).
   Inductive ev := EKv (o : kvop) | EAck (s : status).
@@ -228,6 +252,43 @@ Section Codecs.
         end
     end.
 
+  (** Subscriptions::persist_all: one record per slot, the slots past the table removed *)
+  Fixpoint sub_stores (slot : N) (l : list (N * N)) : list kvop :=
+    match l with
+    | [] => []
+    | x :: t => KStore slot (enc_sub x) :: sub_stores (slot + 1) t
+    end.
+  Definition persist_subs (l : list (N * N)) : list kvop :=
+    let l' := firstn (N.to_nat NSUBS) l in
+    sub_stores SUBS_START l' ++
+    map KRemove (nrange (SUBS_START + N.of_nat (length l')) (N.to_nat NSUBS - length l')).
+
+  (** Subscriptions::load_persist: the slots in order, the first empty one ends the set; a record
+      that does not decode is an error *)
+  Fixpoint load_subs (slots : list N) (m : kv) : option (list (N * N)) :=
+    match slots with
+    | [] => Some []
+    | k :: t =>
+        match aget m k with
+        | None => Some []
+        | Some b =>
+            match dec_sub b with
+            | None => None
+            | Some x => match load_subs t m with Some l => Some (x :: l) | None => None end
+            end
+        end
+    end.
+
+  (** resume_subscriptions: load, drop the subscriptions of fabrics that are not in the table and
+      write the table back if any was dropped *)
+  Definition resume_subs (m : kv) (fabs : list (N * fabric)) : option (list (N * N) * list kvop) :=
+    match load_subs (nrange SUBS_START (N.to_nat NSUBS)) m with
+    | None => None
+    | Some l =>
+        let l' := filter (fun x => amem fabs (fst x)) l in
+        if (length l' =? length l)%nat then Some (l, []) else Some (l', persist_subs l')
+    end.
+
   Definition startup (m : kv) : option (ram * list kvop) :=
     match load_fabs fab_indices m [] with
     | None => None
@@ -244,7 +305,22 @@ Section Codecs.
           | Some bd =>
             match load_opt m K_LABELS dec_labels 0 with
             | None => None
-            | Some lb => Some (mkRam fabs bs ns lb bd res, ops)
+            | Some lb =>
+              match load_opt m K_SCENES dec_scenes [], load_opt m K_OTA dec_ota [],
+                    load_opt m K_TZ dec_tz 0, load_opt m K_ICD_CLIENTS dec_icd [] with
+              | Some sc, Some ot, Some tz, Some ic =>
+                  (* the trusted time source: absent = none *)
+                  match (match aget m K_TTS with None => Some None
+                         | Some b => option_map Some (dec_tts b) end) with
+                  | Some ts =>
+                      match resume_subs m fabs with
+                      | Some (sb, ops2) => Some (mkRam fabs bs ns lb bd res tz ts ic ot sc sb, ops ++ ops2)
+                      | None => None
+                      end
+                  | None => None
+                  end
+              | _, _, _, _ => None
+              end
             end
           end
         end
@@ -257,7 +333,8 @@ Section Codecs.
     ++ [K_BASIC; K_LKG; K_TTS; K_RESUMP; K_GCTR]   (* basic info, rtc, resumption, group counter *)
     ++ [K_EVENT; K_NETS]                      (* InteractionModelState::reset_persist *)
     ++ nrange SUBS_START (N.to_nat NSUBS)     (* Subscriptions::reset_persist: slots of THIS table *)
-    ++ [K_LABELS; K_BIND].                    (* LifecycleOp::FactoryReset of the handlers *)
+    ++ [K_SCENES; K_OTA; K_ICD_CLIENTS; K_ICD_COUNTER; K_LABELS; K_BIND; K_TZ].
+                                              (* LifecycleOp::FactoryReset of the handlers, the one chained last first *)
 
   (** *** Helpers of the handlers *)
   Definition armed_for (s : fs) (f : N) : bool :=
@@ -273,17 +350,30 @@ Section Codecs.
     end.
 
   Definition set_fabs (r : ram) (x : list (N * fabric)) : ram :=
-    mkRam x (r_basic r) (r_nets r) (r_labels r) (r_binds r) (r_resump r).
+    mkRam x (r_basic r) (r_nets r) (r_labels r) (r_binds r) (r_resump r) (r_tz r) (r_tts r) (r_icd r) (r_ota r) (r_scenes r) (r_subs r).
   Definition set_basic (r : ram) (x : basic) : ram :=
-    mkRam (r_fabs r) x (r_nets r) (r_labels r) (r_binds r) (r_resump r).
+    mkRam (r_fabs r) x (r_nets r) (r_labels r) (r_binds r) (r_resump r) (r_tz r) (r_tts r) (r_icd r) (r_ota r) (r_scenes r) (r_subs r).
   Definition set_nets (r : ram) (x : nets) : ram :=
-    mkRam (r_fabs r) (r_basic r) x (r_labels r) (r_binds r) (r_resump r).
+    mkRam (r_fabs r) (r_basic r) x (r_labels r) (r_binds r) (r_resump r) (r_tz r) (r_tts r) (r_icd r) (r_ota r) (r_scenes r) (r_subs r).
   Definition set_labels (r : ram) (x : N) : ram :=
-    mkRam (r_fabs r) (r_basic r) (r_nets r) x (r_binds r) (r_resump r).
+    mkRam (r_fabs r) (r_basic r) (r_nets r) x (r_binds r) (r_resump r) (r_tz r) (r_tts r) (r_icd r) (r_ota r) (r_scenes r) (r_subs r).
   Definition set_binds (r : ram) (x : list (N * N)) : ram :=
-    mkRam (r_fabs r) (r_basic r) (r_nets r) (r_labels r) x (r_resump r).
+    mkRam (r_fabs r) (r_basic r) (r_nets r) (r_labels r) x (r_resump r) (r_tz r) (r_tts r) (r_icd r) (r_ota r) (r_scenes r) (r_subs r).
   Definition set_resump (r : ram) (x : list (N * N)) : ram :=
-    mkRam (r_fabs r) (r_basic r) (r_nets r) (r_labels r) (r_binds r) x.
+    mkRam (r_fabs r) (r_basic r) (r_nets r) (r_labels r) (r_binds r) x (r_tz r) (r_tts r) (r_icd r) (r_ota r) (r_scenes r) (r_subs r).
+  Definition set_tz (r : ram) (x : N) : ram :=
+    mkRam (r_fabs r) (r_basic r) (r_nets r) (r_labels r) (r_binds r) (r_resump r) x (r_tts r) (r_icd r) (r_ota r) (r_scenes r) (r_subs r).
+  Definition set_tts (r : ram) (x : option (N * N)) : ram :=
+    mkRam (r_fabs r) (r_basic r) (r_nets r) (r_labels r) (r_binds r) (r_resump r) (r_tz r) x (r_icd r) (r_ota r) (r_scenes r) (r_subs r).
+  Definition set_icd (r : ram) (x : list (N * N)) : ram :=
+    mkRam (r_fabs r) (r_basic r) (r_nets r) (r_labels r) (r_binds r) (r_resump r) (r_tz r) (r_tts r) x (r_ota r) (r_scenes r) (r_subs r).
+  Definition set_ota (r : ram) (x : list (N * N)) : ram :=
+    mkRam (r_fabs r) (r_basic r) (r_nets r) (r_labels r) (r_binds r) (r_resump r) (r_tz r) (r_tts r) (r_icd r) x (r_scenes r) (r_subs r).
+  Definition set_scenes (r : ram) (x : list (N * N)) : ram :=
+    mkRam (r_fabs r) (r_basic r) (r_nets r) (r_labels r) (r_binds r) (r_resump r) (r_tz r) (r_tts r) (r_icd r) (r_ota r) x (r_subs r).
+
+  Definition set_subs (r : ram) (x : list (N * N)) : ram :=
+    mkRam (r_fabs r) (r_basic r) (r_nets r) (r_labels r) (r_binds r) (r_resump r) (r_tz r) (r_tts r) (r_icd r) (r_ota r) (r_scenes r) x.
 
   Definition with_ram (st : state) (r : ram) : state := mkState r (s_fs st) (s_pase st) (s_kv st).
 
@@ -307,16 +397,25 @@ Section Codecs.
   Definition label_conflict (fabs : list (N * fabric)) (f v : N) : bool :=
     existsb (fun p => negb (fst p =? f) && negb (f_label (snd p) =? 0) && (f_label (snd p) =? v)) fabs.
 
-  (** what `notify_fabric_removed(g)` does: resumption records of g dropped and the cache stored,
-      bindings of g dropped and the registry stored if any was dropped *)
+  (** what `notify_fabric_removed(g)` does: resumption records of g dropped and the cache stored;
+      then the FabricRemoval lifecycle operation, the handler chained last first: scenes, OTA
+      providers, ICD registrations, bindings of g dropped, each registry stored if it dropped any *)
+  Definition drop_for (m : list (N * N)) (g : N) (k : N) (enc : list (N * N) -> blob)
+      : list (N * N) * list ev :=
+    if amem m g then (adel m g, [EKv (KStore k (enc (adel m g)))]) else (m, []).
+
   Definition fabric_removed (r : ram) (g : N) : ram * list ev :=
     let res' := filter (fun x => negb (fst x =? g)) (r_resump r) in
     let e1 := [EKv (KStore K_RESUMP (enc_res res'))] in
-    let r1 := set_resump r res' in
-    if amem (r_binds r) g
-    then let b' := adel (r_binds r) g in
-         (set_binds r1 b', e1 ++ [EKv (KStore K_BIND (enc_binds b'))])
-    else (r1, e1).
+    (* the subscriptions of the fabric; the table is written back if any was dropped *)
+    let sb := filter (fun x => negb (fst x =? g)) (r_subs r) in
+    let e1s := if (length sb =? length (r_subs r))%nat then [] else map EKv (persist_subs sb) in
+    let (sc, e2) := drop_for (r_scenes r) g K_SCENES enc_scenes in
+    let (ot, e3) := drop_for (r_ota r) g K_OTA enc_ota in
+    let (ic, e4) := drop_for (r_icd r) g K_ICD_CLIENTS enc_icd in
+    let (bd, e5) := drop_for (r_binds r) g K_BIND enc_binds in
+    (set_binds (set_icd (set_ota (set_scenes (set_subs (set_resump r res') sb) sc) ot) ic) bd,
+     e1 ++ e1s ++ e2 ++ e3 ++ e4 ++ e5).
 
   (** ResumableSessions::insert_or_update *)
   Definition resump_insert (l : list (N * N)) (f p : N) : list (N * N) :=
@@ -400,13 +499,82 @@ Section Codecs.
                     commit (with_ram st (set_basic r b')) [EKv (KStore K_BASIC (enc_basic b')); EAck Ok]
         | None => refuse st
         end
+    | OTz c v =>
+        match caller_fab st c with
+        | Some _ => commit (with_ram st (set_tz r v)) [EKv (KStore K_TZ (enc_tz v)); EAck Ok]
+        | None => refuse st
+        end
+    | OTts c v =>
+        match caller_fab st c with
+        | Some f =>
+            if f =? 0 then refuse st
+            else if v =? 0 then
+              (* null: the key is removed - if there was a source *)
+              match r_tts r with
+              | None => (st, [EAck Ok])
+              | Some _ => commit (with_ram st (set_tts r None)) [EKv (KRemove K_TTS); EAck Ok]
+              end
+            else if (match r_tts r with Some (f0, v0) => (f0 =? f) && (v0 =? v) | None => false end)
+            then (st, [EAck Ok])               (* unchanged: nothing is written *)
+            else commit (with_ram st (set_tts r (Some (f, v)))) [EKv (KStore K_TTS (enc_tts (f, v))); EAck Ok]
+        | None => refuse st
+        end
+    | OIcd c v =>
+        match caller_fab st c with
+        | Some f =>
+            if f =? 0 then refuse st
+            else if v =? 0 then
+              if amem (r_icd r) f
+              then let m' := adel (r_icd r) f in
+                   commit (with_ram st (set_icd r m')) [EKv (KStore K_ICD_CLIENTS (enc_icd m')); EAck Ok]
+              else refuse st                   (* NotFound *)
+            else let m' := aset (r_icd r) f v in
+                 commit (with_ram st (set_icd r m')) [EKv (KStore K_ICD_CLIENTS (enc_icd m')); EAck Ok]
+        | None => refuse st
+        end
+    | OOta c v =>
+        match caller_fab st c with
+        | Some f =>
+            if f =? 0 then refuse st
+            else let m' := if v =? 0 then adel (r_ota r) f else aset (r_ota r) f v in
+                 commit (with_ram st (set_ota r m')) [EKv (KStore K_OTA (enc_ota m')); EAck Ok]
+        | None => refuse st
+        end
+    | OScene c v =>
+        match caller_fab st c with
+        | Some f =>
+            if f =? 0 then refuse st
+            else if v =? 0 then
+              if amem (r_scenes r) f
+              then let m' := adel (r_scenes r) f in
+                   commit (with_ram st (set_scenes r m')) [EKv (KStore K_SCENES (enc_scenes m')); EAck Ok]
+              else refuse st                   (* NOT_FOUND *)
+            else let m' := aset (r_scenes r) f v in
+                 commit (with_ram st (set_scenes r m')) [EKv (KStore K_SCENES (enc_scenes m')); EAck Ok]
+        | None => refuse st
+        end
+    | OSub c v =>
+        match caller_fab st c with
+        | Some f =>
+            if f =? 0 then refuse st
+            else
+              (* the earlier subscriptions of this peer on this fabric go, the new one is appended;
+                 the answer leaves BEFORE the table is written (persisting is best-effort) *)
+              let sb := filter (fun x => negb (fst x =? f)) (r_subs r) ++ [(f, v)] in
+              commit (with_ram st (set_subs r sb)) (EAck Ok :: map EKv (persist_subs sb))
+        | None => refuse st
+        end
     | ORemove c g =>
         match caller_fab st c with
         | Some _ =>
             if amem (r_fabs r) g then
               let r1 := set_fabs r (adel (r_fabs r) g) in
-              let (r2, evs) := fabric_removed r1 g in
-              commit (with_ram st r2) ([EKv (KRemove (fabric_key g))] ++ evs ++ [EAck Ok])
+              (* the trusted time source goes with the fabric that configured it *)
+              let tts_of_g := match r_tts r with Some (f0, _) => f0 =? g | None => false end in
+              let r1' := if tts_of_g then set_tts r1 None else r1 in
+              let e0 := if tts_of_g then [EKv (KRemove K_TTS)] else [] in
+              let (r2, evs) := fabric_removed r1' g in
+              commit (with_ram st r2) ([EKv (KRemove (fabric_key g))] ++ e0 ++ evs ++ [EAck Ok])
             else refuse st
         | None => refuse st
         end
@@ -498,7 +666,8 @@ Section Codecs.
         else (st, [])
     | OFlush => commit st [EKv (KStore K_RESUMP (enc_res (r_resump r)))]
     | OReset =>
-        commit (with_ram st ram_factory) (map (fun k => EKv (KRemove k)) reset_keys)
+        (* Subscriptions::reset_persist removes the records; the table in memory stays as it is *)
+        commit (with_ram st (set_subs ram_factory (r_subs r))) (map (fun k => EKv (KRemove k)) reset_keys)
     | OPase => (mkState r (s_fs st) (Some 0) (s_kv st), [])
     | OCrash =>
         match startup (s_kv st) with
